@@ -185,3 +185,144 @@ static s32 M_tolower(s32 c) { return (c >= 'A' && c <= 'Z') ? c + 32 : c; }
 #ifdef USES_toupper
 static s32 M_toupper(s32 c) { return (c >= 'a' && c <= 'z') ? c - 32 : c; }
 #endif
+
+/* ---------------------------------------------------------------- std::basic_string out-of-line members
+ * Real libstdc++ (new ABI) layout: { CharT* p; size_t size; union { CharT local[16/sizeof(CharT)]; size_t cap; } }.
+ * Semantics transcribed from bits/basic_string.tcc.  In the symbolic phase any growth is a checked capacity bound. */
+struct verif_string { u8 *p; u64 size; union { u8 local[16]; u64 cap; } u; };
+static inline u1 verif_str_is_local(struct verif_string *S) { return S->p == S->u.local; }
+static inline u64 verif_str_capacity(struct verif_string *S, u64 cs) { return verif_str_is_local(S) ? (16 / cs - 1) : S->u.cap; }
+static inline void verif_str_set_length(struct verif_string *S, u64 n, u64 cs) {
+  S->size = n;
+  for (u64 k = 0; k < cs; k++) S->p[n * cs + k] = 0;
+}
+static inline u8 *verif_str_create(u64 *capacity, u64 old_capacity, u64 cs) {
+  u64 maxsz = ((u64)0x7fffffffffffffffULL) / cs;
+  if (*capacity > maxsz) { verif_throw_std(VERIF_TID_LENGTH_ERROR); return 0; }
+  if (*capacity > old_capacity && *capacity < 2 * old_capacity) { *capacity = 2 * old_capacity; if (*capacity > maxsz) *capacity = maxsz; }
+  return (u8 *)verif_opnew((*capacity + 1) * cs);
+}
+static inline void verif_str_dispose(struct verif_string *S) { if (!verif_str_is_local(S)) free(S->p); }
+static inline void verif_str_mutate(struct verif_string *S, u64 pos, u64 len1, const u8 *s, u64 len2, u64 cs) {
+  VERIF_BOUND(!verif_symbolic, "string growth in the symbolic phase (pre-sized capacity exceeded)");
+  u64 how_much = S->size - pos - len1;
+  u64 new_cap = S->size + len2 - len1;
+  u8 *r = verif_str_create(&new_cap, verif_str_capacity(S, cs), cs);
+  if (VERIF_EXC) return;
+  if (pos) verif_memcpy(r, S->p, pos * cs);
+  if (s && len2) verif_memcpy(r + pos * cs, s, len2 * cs);
+  if (how_much) verif_memcpy(r + (pos + len2) * cs, S->p + (pos + len1) * cs, how_much * cs);
+  verif_str_dispose(S);
+  S->p = r; S->u.cap = new_cap;
+}
+static inline void *verif_str_append(struct verif_string *S, const u8 *s, u64 n, u64 cs) {
+  u64 len = S->size + n;
+  if (len <= verif_str_capacity(S, cs)) { if (n) verif_memcpy(S->p + S->size * cs, s, n * cs); }
+  else { verif_str_mutate(S, S->size, 0, s, n, cs); if (VERIF_EXC) return S; }
+  verif_str_set_length(S, len, cs);
+  return S;
+}
+static inline void *verif_str_replace(struct verif_string *S, u64 pos, u64 len1, const u8 *s, u64 len2, u64 cs) {
+  u64 old = S->size;
+  u64 maxsz = ((u64)0x7fffffffffffffffULL) / cs;
+  if (len2 > maxsz - (old - len1)) { verif_throw_std(VERIF_TID_LENGTH_ERROR); return S; }
+  u64 nsz = old + len2 - len1;
+  if (nsz <= verif_str_capacity(S, cs)) {
+    u8 *p = S->p + pos * cs;
+    u64 how_much = old - pos - len1;
+    VERIF_MODEL(!((uintptr_t)s >= (uintptr_t)S->p && (uintptr_t)s <= (uintptr_t)(S->p + old * cs)) || len2 == 0, "basic_string::_M_replace with overlapping source not modelled");
+    if (how_much && len1 != len2) verif_memmove(p + len2 * cs, p + len1 * cs, how_much * cs);
+    if (len2) verif_memcpy(p, s, len2 * cs);
+  } else { verif_str_mutate(S, pos, len1, s, len2, cs); if (VERIF_EXC) return S; }
+  verif_str_set_length(S, nsz, cs);
+  return S;
+}
+static inline void *verif_str_replace_aux(struct verif_string *S, u64 pos, u64 n1, u64 n2, u32 c, u64 cs) {
+  u64 old = S->size;
+  u64 nsz = old + n2 - n1;
+  if (nsz <= verif_str_capacity(S, cs)) {
+    u8 *p = S->p + pos * cs;
+    u64 how_much = old - pos - n1;
+    if (how_much && n1 != n2) verif_memmove(p + n2 * cs, p + n1 * cs, how_much * cs);
+  } else { verif_str_mutate(S, pos, n1, 0, n2, cs); if (VERIF_EXC) return S; }
+  for (u64 i = 0; i < n2; i++) for (u64 k = 0; k < cs; k++) S->p[(pos + i) * cs + k] = (u8)(c >> (8 * k));
+  verif_str_set_length(S, nsz, cs);
+  return S;
+}
+static inline void verif_str_erase(struct verif_string *S, u64 pos, u64 n, u64 cs) {
+  u64 how_much = S->size - pos - n;
+  if (how_much && n) verif_memmove(S->p + pos * cs, S->p + (pos + n) * cs, how_much * cs);
+  verif_str_set_length(S, S->size - n, cs);
+}
+static inline void verif_str_reserve(struct verif_string *S, u64 n, u64 cs) {
+  u64 cap = verif_str_capacity(S, cs);
+  if (n <= cap) return;
+  VERIF_BOUND(!verif_symbolic, "string reserve growth in the symbolic phase");
+  u8 *t = verif_str_create(&n, cap, cs);
+  if (VERIF_EXC) return;
+  verif_memcpy(t, S->p, (S->size + 1) * cs);
+  verif_str_dispose(S);
+  S->p = t; S->u.cap = n;
+}
+static inline void verif_str_assign(struct verif_string *S, struct verif_string *O, u64 cs) {
+  if (S == O) return;
+  u64 rs = O->size, cap = verif_str_capacity(S, cs);
+  if (rs > cap) {
+    VERIF_BOUND(!verif_symbolic, "string assign growth in the symbolic phase");
+    u64 nc = rs; u8 *t = verif_str_create(&nc, cap, cs);
+    if (VERIF_EXC) return;
+    verif_str_dispose(S); S->p = t; S->u.cap = nc;
+  }
+  if (rs) verif_memcpy(S->p, O->p, rs * cs);
+  verif_str_set_length(S, rs, cs);
+}
+static inline void verif_str_construct_fill(struct verif_string *S, u64 n, u32 c, u64 cs) {
+  if (n > 16 / cs - 1) { u64 nc = n; S->p = verif_str_create(&nc, 0, cs); if (VERIF_EXC) return; S->u.cap = nc; }
+  for (u64 i = 0; i < n; i++) for (u64 k = 0; k < cs; k++) S->p[i * cs + k] = (u8)(c >> (8 * k));
+  verif_str_set_length(S, n, cs);
+}
+#define VSTR(x) ((struct verif_string *)(x))
+/* char */
+#ifdef USES__ZNSt7__cxx1112basic_stringIcSt11char_traitsIcESaIcEE9_M_appendEPKcm
+static void *M__ZNSt7__cxx1112basic_stringIcSt11char_traitsIcESaIcEE9_M_appendEPKcm(void *S, void *s, u64 n) { return verif_str_append(VSTR(S), (const u8 *)s, n, 1); }
+#endif
+#ifdef USES__ZNSt7__cxx1112basic_stringIcSt11char_traitsIcESaIcEE9_M_mutateEmmPKcm
+static void M__ZNSt7__cxx1112basic_stringIcSt11char_traitsIcESaIcEE9_M_mutateEmmPKcm(void *S, u64 pos, u64 l1, void *s, u64 l2) { verif_str_mutate(VSTR(S), pos, l1, (const u8 *)s, l2, 1); }
+#endif
+#ifdef USES__ZNSt7__cxx1112basic_stringIcSt11char_traitsIcESaIcEE10_M_replaceEmmPKcm
+static void *M__ZNSt7__cxx1112basic_stringIcSt11char_traitsIcESaIcEE10_M_replaceEmmPKcm(void *S, u64 pos, u64 l1, void *s, u64 l2) { return verif_str_replace(VSTR(S), pos, l1, (const u8 *)s, l2, 1); }
+#endif
+#ifdef USES__ZNSt7__cxx1112basic_stringIcSt11char_traitsIcESaIcEE14_M_replace_auxEmmmc
+static void *M__ZNSt7__cxx1112basic_stringIcSt11char_traitsIcESaIcEE14_M_replace_auxEmmmc(void *S, u64 pos, u64 n1, u64 n2, u8 c) { return verif_str_replace_aux(VSTR(S), pos, n1, n2, c, 1); }
+#endif
+#ifdef USES__ZNSt7__cxx1112basic_stringIcSt11char_traitsIcESaIcEE8_M_eraseEmm
+static void M__ZNSt7__cxx1112basic_stringIcSt11char_traitsIcESaIcEE8_M_eraseEmm(void *S, u64 pos, u64 n) { verif_str_erase(VSTR(S), pos, n, 1); }
+#endif
+#ifdef USES__ZNSt7__cxx1112basic_stringIcSt11char_traitsIcESaIcEE7reserveEm
+static void M__ZNSt7__cxx1112basic_stringIcSt11char_traitsIcESaIcEE7reserveEm(void *S, u64 n) { verif_str_reserve(VSTR(S), n, 1); }
+#endif
+#ifdef USES__ZNSt7__cxx1112basic_stringIcSt11char_traitsIcESaIcEE9_M_assignERKS4_
+static void M__ZNSt7__cxx1112basic_stringIcSt11char_traitsIcESaIcEE9_M_assignERKS4_(void *S, void *O) { verif_str_assign(VSTR(S), VSTR(O), 1); }
+#endif
+#ifdef USES__ZNSt7__cxx1112basic_stringIcSt11char_traitsIcESaIcEE9_M_createERmm
+static void *M__ZNSt7__cxx1112basic_stringIcSt11char_traitsIcESaIcEE9_M_createERmm(void *S, void *cap, u64 old) { (void)S; return verif_str_create((u64 *)cap, old, 1); }
+#endif
+#ifdef USES__ZNSt7__cxx1112basic_stringIcSt11char_traitsIcESaIcEE12_M_constructEmc
+static void M__ZNSt7__cxx1112basic_stringIcSt11char_traitsIcESaIcEE12_M_constructEmc(void *S, u64 n, u8 c) { verif_str_construct_fill(VSTR(S), n, c, 1); }
+#endif
+#ifdef USES__ZNSt7__cxx1112basic_stringIcSt11char_traitsIcESaIcEE6resizeEmc
+static void M__ZNSt7__cxx1112basic_stringIcSt11char_traitsIcESaIcEE6resizeEmc(void *S, u64 n, u8 c) {
+  if (VSTR(S)->size < n) verif_str_replace_aux(VSTR(S), VSTR(S)->size, 0, n - VSTR(S)->size, c, 1);
+  else if (n < VSTR(S)->size) verif_str_set_length(VSTR(S), n, 1);
+}
+#endif
+/* char16_t / char32_t / wchar_t: header-instantiated in the IR; only the growth entry point is replaced (storage discipline) */
+#ifdef USES__ZNSt7__cxx1112basic_stringIDsSt11char_traitsIDsESaIDsEE9_M_mutateEmmPKDsm
+static void M__ZNSt7__cxx1112basic_stringIDsSt11char_traitsIDsESaIDsEE9_M_mutateEmmPKDsm(void *S, u64 pos, u64 l1, void *s, u64 l2) { verif_str_mutate(VSTR(S), pos, l1, (const u8 *)s, l2, 2); }
+#endif
+#ifdef USES__ZNSt7__cxx1112basic_stringIDiSt11char_traitsIDiESaIDiEE9_M_mutateEmmPKDim
+static void M__ZNSt7__cxx1112basic_stringIDiSt11char_traitsIDiESaIDiEE9_M_mutateEmmPKDim(void *S, u64 pos, u64 l1, void *s, u64 l2) { verif_str_mutate(VSTR(S), pos, l1, (const u8 *)s, l2, 4); }
+#endif
+#ifdef USES__ZNSt7__cxx1112basic_stringIwSt11char_traitsIwESaIwEE9_M_mutateEmmPKwm
+static void M__ZNSt7__cxx1112basic_stringIwSt11char_traitsIwESaIwEE9_M_mutateEmmPKwm(void *S, u64 pos, u64 l1, void *s, u64 l2) { verif_str_mutate(VSTR(S), pos, l1, (const u8 *)s, l2, 4); }
+#endif
